@@ -98,13 +98,21 @@ pub(crate) fn read_data_block_patch<T: Read + Seek>(mut buf: T) -> Option<Vec<u8
             compressed_length,
             decompressed_length,
         } => {
+            // the lengths are signed in the file, and a deflate stream cannot expand by more
+            // than a factor of 1032: anything else is a damaged block, not a reason to allocate
+            let compressed_length = usize::try_from(compressed_length).ok()?;
+            let decompressed_length = usize::try_from(decompressed_length).ok()?;
+            if decompressed_length > compressed_length.saturating_mul(1032).saturating_add(1032) {
+                return None;
+            }
+
             let compressed_length: usize =
-                ((compressed_length as usize + 143) & 0xFFFFFF80) - (block_header.size as usize);
+                ((compressed_length + 143) & 0xFFFFFF80).checked_sub(block_header.size as usize)?;
 
             let mut compressed_data: Vec<u8> = vec![0; compressed_length];
             buf.read_exact(&mut compressed_data).ok()?;
 
-            let mut decompressed_data: Vec<u8> = vec![0; decompressed_length as usize];
+            let mut decompressed_data: Vec<u8> = vec![0; decompressed_length];
             if !no_header_decompress(&mut compressed_data, &mut decompressed_data) {
                 return None;
             }
@@ -112,15 +120,23 @@ pub(crate) fn read_data_block_patch<T: Read + Seek>(mut buf: T) -> Option<Vec<u8
             Some(decompressed_data)
         }
         CompressionMode::Uncompressed { file_size } => {
-            let new_file_size: usize = (file_size as usize + 143) & 0xFFFFFF80;
+            let file_size = usize::try_from(file_size).ok()?;
+            let padding = ((file_size + 143) & 0xFFFFFF80)
+                .checked_sub(block_header.size as usize)?
+                .checked_sub(file_size)?;
 
-            let mut local_data: Vec<u8> = vec![0; file_size as usize];
-            buf.read_exact(&mut local_data).ok()?;
+            // read through take() so that memory grows with the data that is present, not
+            // with the size the block claims
+            let mut local_data: Vec<u8> = Vec::new();
+            buf.by_ref()
+                .take(file_size as u64)
+                .read_to_end(&mut local_data)
+                .ok()?;
+            if local_data.len() != file_size {
+                return None;
+            }
 
-            buf.seek(SeekFrom::Current(
-                (new_file_size - block_header.size as usize - file_size as usize) as i64,
-            ))
-            .ok()?;
+            buf.seek(SeekFrom::Current(padding as i64)).ok()?;
 
             Some(local_data)
         }
